@@ -388,10 +388,12 @@ def decide(ob, tier='quick', seed=0):
 
 
 def _decide(ob, tier, res):
+    t_begin = time.time()
+    budget = getattr(ob, 'budget_s', 100) if tier != 'thorough' else getattr(ob, 'budget_thorough_s', 2400)
     if tier == 'thorough':
         ob.timeout_s = max(ob.timeout_s, ob.timeout_thorough_s)
     mk = _Mk()
-    explorer = Explorer(domain=[], max_paths=ob.max_paths)
+    explorer = Explorer(domain=[], max_paths=ob.max_paths, budget_s=budget / 2.0)
     # domain needs variable names: run build once lazily -> we collect names as mk is called.
     # Domain terms may mention any names, so compute after a dry pass is unnecessary: domain(V)
     # only uses V(name) constructors.
@@ -430,7 +432,11 @@ def _decide(ob, tier, res):
                 continue
         else:
             out = p.value
-        cx = SymCtx(out, mk.vals, rules=ob.rules(out) if p.exc is None else {}, path=p)
+        rules_ = ob.rules(out) if p.exc is None else {}
+        if getattr(ob, 'implicit_roots', False) and p.exc is None:
+            rules_ = dict(rules_)
+            rules_.update(implicit_rules(p, list(mk.vals)))
+        cx = SymCtx(out, mk.vals, rules=rules_, path=p)
         ob.claims(cx)
         # reachability twin
         base = dom + pc
@@ -476,6 +482,9 @@ def _decide(ob, tier, res):
         for c in cx.claims:
             res['claims'] += 1
             label = '%s[path%d]' % (c.label, pi) if len(paths) > 1 else c.label
+            if time.time() - t_begin > budget:
+                res['inconclusive'].append({'label': label, 'reason': 'not attempted: the obligation used up its %ds budget for this tier' % budget})
+                continue
             try:
                 ct, when = _claim_term(c)
                 if c.kind == 'defined':
@@ -876,3 +885,33 @@ def continuity_claims(ob, paths, field, point_vars, numeric_eval, extra_assume=(
                 return {'reproduced': bool(jump > 1e-4 * sc), 'detail': 'values within 1e-7 of the witness span [%.12g, %.12g]' % (min(vals), max(vals))}
             out.append(('continuity of %s across branches %d|%d' % (field, i, j), assume, T.eq(terms[i], terms[j]), chk))
     return out
+
+
+# =============================================================================== implicit differentiation of stub roots
+
+def implicit_rules(p, input_names):
+    """Stub roots are defined by their contracts F(root, inputs) == 0 (PathResult.assumes).  Their derivatives
+    w.r.t. the inputs follow by implicit differentiation, processed in creation order so that a later root may
+    depend on earlier ones:  d r/dx = -(dF/dx)_total / (dF/dr).  Returns {Term(var r): {x: Term}}."""
+    rules = {}
+    defined = set()
+    for a in p.assumes:
+        if a.op != 'eq' or a.args[1] is not T.ZERO:
+            continue
+        F = a.args[0]
+        new = [n for n in T.free_vars(F) if '#' in n and n not in defined]
+        if len(new) != 1:
+            continue
+        r = new[0]
+        rv = T.var(r)
+        dFdr = D.d(F, r)
+        if dFdr is T.ZERO:
+            continue
+        entry = {}
+        for x in input_names:
+            sub = {k: v[x] for k, v in rules.items() if x in v}
+            dFdx = D.d(F, x, sub)
+            entry[x] = T.neg(T.div(dFdx, dFdr)) if dFdx is not T.ZERO else T.ZERO
+        rules[rv] = entry
+        defined.add(r)
+    return rules
